@@ -29,6 +29,8 @@ type Attacker struct {
 	StartAt   int    `json:"start_at"`             // witness message number at which the attacker starts
 	Trap      bool   `json:"trap,omitempty"`       // park a publisher's delivery to this attacker while it tears down
 	ToWitness bool   `json:"to_witness,omitempty"` // attacker subscribes to the witness topic
+	OddWill   string `json:"odd_will,omitempty"`   // will topic that is not a valid topic name (kept with a trailing blank so that "" shows)
+	BigWill   int    `json:"big_will,omitempty"`   // size of the will message in the CONNECT (the witness subscriber listens to the will topic)
 }
 
 type C05Case struct {
@@ -66,9 +68,20 @@ func runC05(c C05Case) (res c05result) {
 	if _, err := Wp.Connect(wire.ConnectPacket("wpub", true, 120)); err != nil {
 		return c05result{Fail: fmt.Sprintf("witness publisher connect: %v (escaped: %v; serve error: %v; %v since dial)", err, b.Escaped(), Wp.ServeErr, time.Since(t0))}
 	}
-	Ws.Send(&codec.Packet{Type: codec.SUBSCRIBE, PacketID: 1, Topics: [][]byte{[]byte(witnessTopic)}, QoSs: []byte{1}})
+	// the witness subscriber also listens to the attackers' wills (a will may be larger
+	// than the witness connection's buffer)
+	Ws.Send(&codec.Packet{Type: codec.SUBSCRIBE, PacketID: 1, Topics: [][]byte{[]byte(witnessTopic), []byte("att/will")}, QoSs: []byte{1, 0}})
 	if _, err := Ws.Barrier(); err != nil {
 		return c05result{Fail: "witness barrier: " + err.Error()}
+	}
+	// a third witness listens to everything (wills with unusual topics reach only it)
+	Wall := b.Dial("Wall")
+	if _, err := Wall.Connect(wire.ConnectPacket("wall", true, 120)); err != nil {
+		return c05result{Fail: "witness (all topics) connect: " + err.Error()}
+	}
+	Wall.Send(&codec.Packet{Type: codec.SUBSCRIBE, PacketID: 1, Topics: [][]byte{[]byte("#")}, QoSs: []byte{0}})
+	if _, err := Wall.Barrier(); err != nil {
+		return c05result{Fail: "witness (all topics) barrier: " + err.Error()}
 	}
 	cls := map[string]bool{}
 	var clsMu sync.Mutex
@@ -190,7 +203,7 @@ func runC05(c C05Case) (res c05result) {
 	// (3) exactly the witness sequence, in order, intact
 	n := 0
 	for _, r := range rx {
-		if r.P.Type != codec.PUBLISH {
+		if r.P.Type != codec.PUBLISH || string(r.P.Topic) == "att/will" {
 			continue
 		}
 		n++
@@ -200,6 +213,27 @@ func runC05(c C05Case) (res c05result) {
 	}
 	if n != c.NMsgs {
 		return c05result{Fail: fmt.Sprintf("witness subscriber received %d of the %d witness messages", n, c.NMsgs)}
+	}
+	// (4) the subscriber to everything is alive and holds the witness sequence too
+	rxa, err := Wall.Barrier()
+	if err != nil {
+		if err == wire.ErrTimeout {
+			return c05hang(res, "the witness subscribed to '#' got no PINGRESP")
+		}
+		return c05result{Fail: fmt.Sprintf("the connection of the witness subscribed to '#' was closed by the broker (%v; stream error %v) although only the attacker misbehaved", err, Wall.StreamErr())}
+	}
+	n = 0
+	for _, r := range rxa {
+		if r.P.Type != codec.PUBLISH || string(r.P.Topic) != witnessTopic {
+			continue
+		}
+		n++
+		if !bytes.Equal(r.P.Payload, witnessPayload(n)) {
+			return c05result{Fail: fmt.Sprintf("witness subscribed to '#': message %d of the witness sequence is wrong (%d bytes, starts %q)", n, len(r.P.Payload), clip(r.P.Payload, 16))}
+		}
+	}
+	if n != c.NMsgs {
+		return c05result{Fail: fmt.Sprintf("the witness subscribed to '#' received %d of the %d witness messages", n, c.NMsgs)}
 	}
 	return res
 }
@@ -240,7 +274,14 @@ func genAttacker(t *rapid.T, c *C05Case, ai int) Attacker {
 	cp := wire.ConnectPacket(id, rapid.Bool().Draw(t, "clean"), 60)
 	if rapid.Bool().Draw(t, "will") {
 		cp.ConnectFlags |= 4
-		cp.WillTopic, cp.WillMessage = []byte("att/will"), []byte("gone")
+		cp.WillTopic, cp.WillMessage = []byte(rapid.SampledFrom([]string{"att/will", "att/will", "att/will", "att/+", "att/#", "#", "", "att//will"}).Draw(t, "willtopic")), []byte("gone")
+		if string(cp.WillTopic) != "att/will" {
+			a.OddWill = string(cp.WillTopic) + " "
+		}
+		if ws := rapid.SampledFrom([]int{0, 0, 0, 3000, 9000, 20000, 65535}).Draw(t, "willsize"); ws > 0 {
+			cp.WillMessage = bytes.Repeat([]byte{'w'}, ws)
+			a.BigWill = ws
+		}
 	}
 	pk = append(pk, codec.Encode(cp))
 	a.ToWitness = rapid.Bool().Draw(t, "to-witness")
@@ -409,6 +450,14 @@ func c05spec(t *testing.T, unit string, gen func(*rapid.T) C05Case) {
 			if a.ToWitness {
 				cls = append(cls, "deliveries-addressed-to-attacker")
 			}
+			if a.OddWill != "" {
+				cls = append(cls, "will-topic-not-a-valid-name")
+			}
+			if a.BigWill > c.BufSize {
+				cls = append(cls, "will-larger-than-the-witness-buffer")
+			} else if a.BigWill > 0 {
+				cls = append(cls, "will-of-several-KiB")
+			}
 		}
 		rec.Case(c, nt && c.NMsgs >= 10, cls...)
 		if r.Fail != "" {
@@ -569,7 +618,11 @@ func runC05Victim(c C05VCase) (res c05result) {
 		A.Close()
 	}
 	if !A.WaitTeardown(wire.DefaultWait) {
-		return c05hang(res, "the offender's teardown did not finish")
+		r := c05hang(res, "the offender's teardown did not finish")
+		if r.Fail != "" {
+			r.Fail = fmt.Sprintf("the offender closed its connection but the broker never tears it down - every library goroutine is parked, the connection with its goroutines, session and will stays for good (%v)", census.Summary(census.Lib()))
+		}
+		return r
 	}
 	for _, x := range b.Escaped() {
 		return c05result{Fail: x + " (in production the connection handler runs without recover: the broker process dies)"}
